@@ -180,6 +180,11 @@ def spec_set(c, after, out):
         want = [(st in ON) if lo <= i <= hi else before[i] for i in range(48)]
         if after != want:
             return "slots changed are not exactly start..end set to the requested state"
+    else:
+        # any minutes: an end (other than 00:00, the end of the day) that is not after the start on the clock must raise
+        (sh, sm), (eh, em) = (map(int, pa.split(":")), map(int, pb.split(":")))
+        if eh * 60 + em != 0 and eh * 60 + em <= sh * 60 + sm and out != "ValueError":
+            return "end not after start did not raise ValueError"
     return None
 
 
@@ -309,11 +314,9 @@ def run_minute_sweep(tier, res, starts=None):
             want_after, want_out = minute_oracle(before, st, s, e)
             if out != want_out or after != want_after:
                 c = dict(part="set", cls="minute-sweep", pattern=pat, state=st, start=a, end=MINUTES[e], how="set_state")
-                aligned = s % 30 == 0 and e % 30 == 0
-                generic = out not in ("ok", "ValueError") or (out != "ok" and after != before) or len(after) != 48
-                if aligned or generic:
-                    res.fail("spec", c, dict(after=bits(want_after), outcome=want_out), dict(after=bits(after), outcome=out),
-                             "slots changed are not exactly start..end set to the requested state / an error is not an inert ValueError")
+                clause = spec_set(c, list(after), out)      # the statement: aligned pairs, inert ValueError, end not after start
+                if clause:
+                    res.fail("spec", c, dict(after=bits(want_after), outcome=want_out), dict(after=bits(after), outcome=out), clause)
                 else:
                     res.fail("corr", c, dict(after=bits(want_after), outcome=want_out), dict(after=bits(after), outcome=out),
                              "set_state with non-aligned minutes differs from C18.set_exact_unaligned (exact-minute comparison, "
